@@ -23,6 +23,7 @@ func init() {
 }
 
 func runC14(c *core.Ctx) {
+	c.Rule("R11", "successor search: the index after an exact match, the insertion point otherwise, 0 past the last token (shared with C01.R8)", 1)
 	c.Rule("R1", "no in-band sentinel on unsigned locals in the range builders", 2)
 	c.Rule("R3", "k-way merge: an ended sequence never beats a live one holding the end marker's value (2^32-1 is a token)", 1)
 	c.Rule("R4", "arithmetic on 32-bit keys/tokens in lookup and range code is confined to the reviewed shapes and site counts; guarded sites keep their guard", 4)
@@ -77,6 +78,7 @@ func runC14(c *core.Ctx) {
 	c14Extremum(c, pkg)
 	c15LookupAs(c, pkg, "R8", false)
 	c01CountersAs(c, pkg, "R9")
+	c01SearchTokenAs(c, pkg, "R11")
 	c13PartitionDerived(c, pkg, "R10")
 }
 
